@@ -926,6 +926,10 @@ def to_violation(ctx: Ctx, c, o, clause: int, do_shrink=True) -> Violation:
 def generated(ctx: Ctx) -> dict:
     """Gen_C03.v from the tree under test; the last accepted shape if the translation fails (broken obligation)."""
     try:
+        # the ast normalisations the translator relies on are themselves run against python (differential self-test, < 1 s)
+        from translator import c03_norm_selftest
+        if c03_norm_selftest.main(verbose=False) != 0:
+            raise core.TranslationError("translator/c03_norm.py: a normalisation changed the behaviour of a self-test snippet")
         return {"Gen_C03.v": tr.translate(ctx.repo)}
     except core.TranslationError as ex:
         ctx.broken.append(Broken("translation", "declarative part of the result assembly (exposure.py, to_xarray of the "
